@@ -127,7 +127,7 @@ def build_package(d, name, spec):
 
 
 def make_fitter(md, bands, law, av_range, distance_range_kpc=(1.0, 2.0), theta=None, memmap=True,
-                remove_resolved=False, by_wavelength=False, dunit='kpc'):
+                remove_resolved=False, by_wavelength=False, dunit='kpc', tunit='arcsec', as_tuple=False):
     from astropy import units as u
     from sedfitter.fit import Fitter
     theta = np.ones(len(bands)) if theta is None else np.asarray(theta, float)
@@ -135,7 +135,9 @@ def make_fitter(md, bands, law, av_range, distance_range_kpc=(1.0, 2.0), theta=N
         filt = [BAND_WAV[b] * u.micron for b in bands]
     else:
         filt = list(bands)
-    return Fitter(filt, theta * u.arcsec, md, extinction_law=law_object(law) if isinstance(law, str) else law,
+    if as_tuple:
+        filt = tuple(filt)
+    return Fitter(filt, (theta * u.arcsec).to(u.Unit(tunit)), md, extinction_law=law_object(law) if isinstance(law, str) else law,
                   av_range=list(av_range), distance_range=(np.array(distance_range_kpc, float) * u.kpc).to(u.Unit(dunit)),
                   remove_resolved=remove_resolved, use_memmap=memmap)
 
